@@ -49,7 +49,7 @@ ASSUMPTIONS = [
     'repetition counts are small positive integers in generated cases (the theorems are for all counts)',
 ]
 MANIFEST = {
-    'level_text': 'Proof: 75 unbounded theorems over an executable Coq model of waveforms.py: vectorised sampler = pointwise '
+    'level_text': 'Proof: 80 unbounded theorems over an executable Coq model of waveforms.py: vectorised sampler = pointwise '
                   'meaning on every sorted grid (all 11 classes); constant_value sound on [0,duration) for all classes; '
                   '__eq__ => same behaviour; reversed()/double reversal laws; totality REFUTED on the unchanged code '
                   '(sequence/repetition at t=duration, reversal around them, chained parallel+linear KeyError) and proved under '
@@ -57,16 +57,15 @@ MANIFEST = {
                   'well-formed waveform (from_mapping, from_repetition_count, from_functor, from_to_reverse, from_sequence incl. '
                   'flattening, from_operator, from_parallel, from_transformation for ALL transformations, from_table incl. '
                   'de-duplication); the COMPOSED statement over construction recipes (optimising or plain constructor at every '
-                  'node) proved for every recipe without get_subset_for_channels nodes: transformations of any kind and reversal '
-                  '(ReversedWaveform, from_to_reverse, reversed()) anywhere, under executable guards (constructor shape and '
+                  'node) proved for EVERY recipe: transformations of any kind, reversal (ReversedWaveform, from_to_reverse, '
+                  'reversed()) and get_subset_for_channels anywhere and nested, under executable guards (constructor shape and '
                   'duplicate-free keys of every transformation, no KeyError in the plain composite, and a time guard that excludes '
-                  'exactly local time 0 of a reversal = the class refuted without it), plus get_subset at the root; history '
+                  'exactly local time 0 of a reversal = the class refuted without it); history '
                   'independence (no transforming nodes: any history; any transformations: arrays not mutated, no linear output '
                   'shadowing a forwarded channel - refuted without that guard); code meaning = DESIGN 4.4 denotation for reversal '
                   'ANYWHERE together with transformations of ANY kind (mirror law incl. time dependent transformations below a '
-                  'reversal) away from the junctions an executable parity guard excludes. Not proved (only tested through the '
-                  'denotational oracle): the composed statement for recipes with get_subset_for_channels nodes below other nodes '
-                  '(the single step is proved for all classes under a guard that excludes ReversedWaveform at its local time 0). '
+                  'reversal) away from the junctions an executable parity guard excludes. Only tested (not modelled): the content '
+                  'of a supplied output array before the call, float rounding. '
                   'The model (incl. a state machine for the TransformingWaveform cache) is tied to /repo by an exact '
                   'correspondence check, an independent denotation (DESIGN 4.4) on generated waveform trees incl. families for '
                   'sparse grids, shared objects, re-allocated time arrays, reused output arrays and coinciding channel names, '
